@@ -352,6 +352,22 @@ def pipeline_seams(fake: FakeExec, spawn: SimSpawn | None = None, executor: SimE
     if executor is not None:
         patches.append((job, "ThreadPoolExecutor", executor))
     patches.append((job, "tqdm", tqdm or SimTqdmFactory()))
+    # tempfile draws the names of scratch directories from os.urandom: one more source of nondeterminism (the names end
+    # up in tracebacks, listings, logs).  Behind the seam they are sim000000, sim000001, ... per installation.
+    import tempfile
+
+    class _Names:
+        def __init__(self):
+            self.n = 0
+
+        def __iter__(self):
+            return self
+
+        def __next__(self):
+            self.n += 1
+            return f"sim{self.n - 1:06d}"
+
+    patches.append((tempfile, "_name_sequence", _Names()))
     missing = object()
     saved = []
     for mod, name, val in patches:
